@@ -375,6 +375,12 @@ func main() {
 	for i := 0; i < nBig; i++ {
 		add(genScene(r, true), "big")
 	}
+	// medium sizes: vertex counts at and around powers of two (256 ... 32768), run-length encoded like the big ones
+	bigPool = mediumCounts
+	for i := 0; i < nBig+2; i++ {
+		add(genScene(r, true), "medium")
+	}
+	bigPool = bigCounts
 	nGlb := 0
 	for i := 0; i < run.N; i++ {
 		d := genScene(r, false)
